@@ -14,6 +14,7 @@ import (
 	"fmt"
 	"os"
 	"path/filepath"
+	"regexp"
 	"sort"
 	"strings"
 	"testing"
@@ -44,6 +45,8 @@ runs:
       «cin»:
         type: string
         required: true
+      «cnum»:
+        type: number
     secrets:
       «csec»:
         required: true
@@ -110,6 +113,7 @@ jobs:
     uses: ./.github/workflows/callee.yml
     with:
       «cin»: ${{ «needs».«prep».«outputs».«pout» }}
+      «cnum»: 1
     secrets:
       «csec»: ${{ «secrets».«token» }}
   «last»:
@@ -125,6 +129,8 @@ var c08Noise = map[string]string{
 	"${{ «needs».«caller».«outputs».«cout» }}": "${{ «needs».«caller».«outputs».«cout» }} ${{ «needs».«caller».«outputs».nosuchout }} ${{ «steps».nosuchstep }}",
 	"          «ref»: main\n":                  "          «ref»: main\n          nosuchinput: 1\n",
 	"      «cin»: ${{":                         "      nosuchcin: 1\n      «cin»: ${{",
+	// a typed input of the callee is type-checked whatever the case of the key at the caller
+	"      «cnum»: 1\n": "      «cnum»: ${{ 'abc' }}\n",
 	// the script input of actions/github-script is recognised whatever the case of its name
 	"      - id: «s2»\n        uses: actions/checkout@v4\n": "      - uses: actions/github-script@v7\n        with:\n          «script»: console.log(${{ «github».«event».«pull_request».«title» }})\n          «github-token»: t\n      - id: «s2»\n        uses: actions/checkout@v4\n",
 	// untrusted inputs spelled with string indexes: reported in every letter case
@@ -195,7 +201,7 @@ func c08Lint(root string, files map[string]string) ([]string, error) {
 			return nil, err
 		}
 		for _, e := range errs {
-			all = append(all, fmt.Sprintf("%s:%d:%d [%s] %s", filepath.Base(wf), e.Line, e.Column, e.Kind, strings.ToLower(e.Message)))
+			all = append(all, fmt.Sprintf("%s:%d:%d [%s] %s", filepath.Base(wf), e.Line, e.Column, e.Kind, c08NormMsg(e.Message)))
 		}
 	}
 	sort.Strings(all)
@@ -339,4 +345,17 @@ func TestVerifC08(t *testing.T) {
 			}
 		}
 	}
+}
+
+var c08QuotedRe = regexp.MustCompile(`"(?:[^"\\]|\\.)*"`)
+
+// c08NormMsg lower-cases a message and makes it independent of the order in which names are
+// listed inside it (lists of names are sorted by their spelling, which re-casing legitimately
+// changes: "only the spelling echoed in messages" may differ).
+func c08NormMsg(m string) string {
+	m = strings.ToLower(m)
+	qs := c08QuotedRe.FindAllString(m, -1)
+	sort.Strings(qs)
+	i := 0
+	return c08QuotedRe.ReplaceAllStringFunc(m, func(string) string { i++; return qs[i-1] })
 }
